@@ -8,7 +8,7 @@ use crate::fgen::*;
 use crate::find::{account_find, run_find_prebuilt, FindScenario};
 use crate::prop::{Property, Report, Tier};
 use crate::props::c06::{kernel_budget, kernel_cost};
-use crate::props::c09::{norm_dir, split_for_execdir_bytes};
+use crate::props::c09::{rel_dir, split_for_execdir_bytes};
 use crate::rng::Rng;
 use crate::tree;
 use crate::world::{Event, Outcome};
@@ -371,7 +371,7 @@ impl Property for C08 {
         if sc.execdir {
             // two consecutive invocations from the same directory: the first was dispatched
             // because the batch was full
-            let dirs: Vec<String> = spawns.iter().map(|(_, _, cwd, _)| cwd.as_ref().map(|c| norm_dir(&String::from_utf8_lossy(c))).unwrap_or_default()).collect();
+            let dirs: Vec<String> = spawns.iter().map(|(_, _, cwd, _)| cwd.as_ref().map(|c| rel_dir(c, &obs.root)).unwrap_or_default()).collect();
             if dirs.windows(2).any(|w| w[0] == w[1] && w[0].contains('/')) {
                 rep.probe("execdir_batch_overflow_inside_a_directory_below_the_top");
             }
@@ -393,7 +393,7 @@ impl Property for C08 {
                 );
                 return;
             }
-            let dir = cwd.as_ref().map(|c| norm_dir(&String::from_utf8_lossy(c))).unwrap_or_default();
+            let dir = cwd.as_ref().map(|c| rel_dir(c, &obs.root)).unwrap_or_default();
             // -exec + runs in find's own directory (an explicit `.` is the same place)
             if !sc.execdir && cwd.is_some() && !dir.is_empty() {
                 rep.fail("C08.unexpected-cwd", format!("{}: -exec + ran in [{}]", describe(), dir));
